@@ -65,15 +65,12 @@ func (d *Deduplicator) NotifyDKGStarted(
 	cacheKey := newDKGSeed.Text(16)
 	// If the key is not in the cache, that means the seed was not handled
 	// yet and the client should proceed with the execution.
-	if !d.dkgSeedCache.Has(cacheKey) {
-		verifhook.At("dedup.beforeAdd", cacheKey)
-		d.dkgSeedCache.Add(cacheKey)
-		return true
-	}
-
 	// Otherwise, the DKG seed is a duplicate and the client should not proceed
 	// with the execution.
-	return false
+	// The check and the insertion must be a single atomic operation because
+	// the same event can be delivered by concurrent handlers.
+	verifhook.At("dedup.beforeAdd", cacheKey)
+	return d.dkgSeedCache.Add(cacheKey)
 }
 
 // NotifyRelayEntryStarted notifies the client wants to start relay entry
